@@ -53,11 +53,11 @@ func (dc *DocumentChunker) ChunkDocument(doc *model.Document) *ChunkCollection {
 	// Build section context from headings
 	toc := doc.TableOfContents()
 	currentSection := []string{}
-	currentHeadingLevel := 0
+	sectionLevels := []int{} // heading level of each entry of currentSection
 
 	// Process each page
 	for _, page := range doc.Pages {
-		pageChunks := dc.chunkPage(page, docTitle, &currentSection, &currentHeadingLevel, toc, &chunkIndex)
+		pageChunks := dc.chunkPage(page, docTitle, &currentSection, &sectionLevels, toc, &chunkIndex)
 		chunks = append(chunks, pageChunks...)
 	}
 
@@ -70,7 +70,7 @@ func (dc *DocumentChunker) ChunkDocument(doc *model.Document) *ChunkCollection {
 }
 
 // chunkPage chunks a single page
-func (dc *DocumentChunker) chunkPage(page *model.Page, docTitle string, currentSection *[]string, currentHeadingLevel *int, toc []model.TOCEntry, chunkIndex *int) []*Chunk {
+func (dc *DocumentChunker) chunkPage(page *model.Page, docTitle string, currentSection *[]string, sectionLevels *[]int, toc []model.TOCEntry, chunkIndex *int) []*Chunk {
 	var chunks []*Chunk
 
 	if page == nil {
@@ -100,7 +100,7 @@ func (dc *DocumentChunker) chunkPage(page *model.Page, docTitle string, currentS
 
 				// Update section path
 				headingLevel := getHeadingLevel(e.Text, toc, page.Number)
-				updateSectionPath(currentSection, currentHeadingLevel, headingLevel, e.Text)
+				pushSection(currentSection, sectionLevels, headingLevel, e.Text)
 
 				// Create heading chunk
 				chunk := dc.createHeadingChunk(e.Text, docTitle, copySectionPath(*currentSection), headingLevel, page.Number, chunkIndex)
@@ -120,7 +120,7 @@ func (dc *DocumentChunker) chunkPage(page *model.Page, docTitle string, currentS
 			flushTextBlock()
 
 			// Update section path
-			updateSectionPath(currentSection, currentHeadingLevel, e.Level, e.Text)
+			pushSection(currentSection, sectionLevels, e.Level, e.Text)
 
 			// Create heading chunk
 			chunk := dc.createChunkFromHeading(e, docTitle, copySectionPath(*currentSection), page.Number, chunkIndex)
@@ -436,23 +436,32 @@ func getHeadingLevel(text string, toc []model.TOCEntry, pageNum int) int {
 	return 1 // Default to level 1
 }
 
-// updateSectionPath updates the section path based on heading level
-func updateSectionPath(sectionPath *[]string, currentLevel *int, newLevel int, headingText string) {
+// pushSection opens a section for a heading of the given level: every open
+// heading of the same or a deeper level is closed first, whatever levels were
+// skipped on the way down (H1, H3, H3 leaves [H1, second H3]). sectionLevels holds
+// the heading level of each entry of sectionPath.
+func pushSection(sectionPath *[]string, sectionLevels *[]int, newLevel int, headingText string) {
 	headingText = strings.TrimSpace(headingText)
 
-	if newLevel <= *currentLevel {
-		// Pop sections until we're at the right level
-		for len(*sectionPath) >= newLevel {
-			if len(*sectionPath) > 0 {
-				*sectionPath = (*sectionPath)[:len(*sectionPath)-1]
-			} else {
-				break
-			}
-		}
+	n := len(*sectionLevels)
+	for n > 0 && (*sectionLevels)[n-1] >= newLevel {
+		n--
 	}
 
-	// Add new section
-	*sectionPath = append(*sectionPath, headingText)
+	*sectionPath = append((*sectionPath)[:n], headingText)
+	*sectionLevels = append((*sectionLevels)[:n], newLevel)
+}
+
+// updateSectionPath updates the section path for a caller that only knows the
+// level of the innermost open heading; the headings above it are taken to be one
+// level apart. chunkPage tracks the level of every open heading with pushSection.
+func updateSectionPath(sectionPath *[]string, currentLevel *int, newLevel int, headingText string) {
+	levels := make([]int, len(*sectionPath))
+	for i := range levels {
+		levels[i] = *currentLevel - (len(levels) - 1 - i)
+	}
+
+	pushSection(sectionPath, &levels, newLevel, headingText)
 	*currentLevel = newLevel
 }
 
